@@ -14,6 +14,7 @@ import CalicoVerif.Gen.C37
   `h3 <xbytes> <xhash>`                   -> `ok`   (one point of base64url(sha3-224(·)))
   `pid <xkind> <xns> <xname>`             -> `<x PolicyID.ID()> <x PolicyID.String()>`
   `pol2 <in|out> <nft 0|1> <xkind> <xns> <xname>` -> policy chain name, ID() computed by the model
+  `tempset <4|6> <xnameprefix> <n>`       -> `<xname>`  (NameForTempIPSet)
   `grp2 <in|out> <xselector> (<xkind> <xns> <xname>)*` -> group chain name, pre-hash string computed by the model
 -/
 open CalicoVerif CalicoVerif.C37 CalicoVerif.Proto
@@ -101,6 +102,10 @@ def stepIdent (t t3 : Table) (ws : List String) : Option String :=
     | some p, some m, some k, some ns, some n =>
       some (runGLL t p ({ name := n, namespace_ := ns, kind := k } : PolicyID).id m)
     | _, _, _, _, _ => some "bad-op"
+  | ["tempset", fam, np, n] =>
+    match (if fam = "4" then some false else if fam = "6" then some true else none), parseX np, n.toNat? with
+    | some v6, some np, some n => some (showX (nameForTempIPSet np v6 Gen.tempIpsetToken n))
+    | _, _, _ => some "bad-op"
   | "grp2" :: dir :: sel :: pols =>
     match (if dir = "in" then some false else if dir = "out" then some true else none), parseX sel, parsePols pols with
     | some ob, some sel, some ps =>
